@@ -162,7 +162,8 @@ def iter_nodes(nodes, depth=0, parents=()):
 
 def cue_features(cue):
   """Coarse, value-free description of a cue (used to name mechanisms and to count coverage classes).
-  Hierarchical: `line:neg,center` implies `line:neg`; `position,line-left` implies `position`."""
+  Hierarchical: `line:neg,center` implies `line:neg`; `position,line-left` implies `position`; `ts>=2` implies `ts`;
+  `line:pct-frac` implies `line:pct`."""
   f = set()
   if cue["id"] is not None:
     f.add("id-kw" if cue["id"].startswith(("STYLE", "NOTE ", "REGION")) else "id")
@@ -172,7 +173,9 @@ def cue_features(cue):
     if name == "line":
       v, _, al = value.partition(",")
       if v.endswith("%"):
-        k = "line:pct-frac" if "." in v else "line:pct"
+        k = "line:pct"
+        if "." in v:
+          f.add("line:pct-frac")
       else:
         n = int(v)
         k = "line:num0" if n == 0 else ("line:neg" if n < 0 else "line:num")
@@ -216,8 +219,7 @@ def cue_features(cue):
           f.add("c.fg")
         if any(c.startswith("bg_") for c in n["classes"]):
           f.add("c.bg")
-        if not n["classes"] or any(c in OTHER_CLASSES for c in n["classes"]):
-          f.add("c")
+        f.add("c")
       else:
         f.add(name)
         if n["classes"]:
@@ -228,6 +230,8 @@ def cue_features(cue):
         f.add("unclosed-rt")
       if name == "ruby" and parents:
         f.add("ruby-in-tag")
+      if name == "ruby" and sum(1 for k in n["kids"] if k["t"] == "tag" and k["name"] == "rt") >= 2:
+        f.add("ruby-2pairs")
       if name not in ("ruby", "rt") and "ruby" in parents:
         f.add("tag-in-rt" if "rt" in parents else "tag-in-ruby-base")
       if name == "rt" and "ruby" not in parents:
@@ -235,7 +239,9 @@ def cue_features(cue):
       if not n["kids"]:
         f.add("empty-tag")
   if nts:
-    f.add("ts" if nts == 1 else "ts>=2")
+    f.add("ts")
+    if nts >= 2:
+      f.add("ts>=2")
   if maxdepth >= 3:
     f.add("depth3")
   return f
@@ -368,20 +374,24 @@ def _wrap(rng, items, depth, maxdepth, in_ruby, p_wrap, opts):
   return out
 
 
-def _make_tag(rng, items, depth, maxdepth, in_ruby, p_wrap, opts):
+def _make_tag(rng, items, depth, maxdepth, in_ruby, p_wrap, opts, force=None):
   plain = all(x["t"] == "text" or (x["t"] == "tag" and x["name"] not in ("ruby", "rt")) for x in items)
   words = [k for k, x in enumerate(items) if x["t"] == "text" and x["raw"].strip() and x["raw"] == x["dec"]]
   kinds = ["b", "i", "u", "c", "c", "lang", "v"]
   can_ruby = (not in_ruby and plain and len(words) >= 2 and all(x["t"] == "text" for x in items)
               and (depth == 0 or opts.get("ruby_in_tag", False)))
   if can_ruby:
-    kinds += ["ruby", "ruby"]
+    kinds += ["ruby", "ruby"] if len(words) < 4 else ["ruby"] * 6
   name = rng.choice(kinds)
+  if force is not None:
+    if force == "ruby" and not can_ruby:
+      return None
+    name = force
   node = {"t": "tag", "name": name, "classes": [], "annot": None, "kids": None, "close": True}
   if name == "ruby":
     # base text, <rt> ruby text, possibly a second pair
     kids = []
-    pairs = 2 if len(words) >= 4 and rng.random() < 0.4 else 1
+    pairs = 2 if len(words) >= 4 and rng.random() < 0.6 else 1
     cuts = sorted(rng.sample(range(1, len(words)), 2 * pairs - 1)) if len(words) > 2 * pairs - 1 else None
     if cuts is None:
       pairs, cuts = 1, [1]
@@ -463,6 +473,21 @@ def gen_cue(rng, tok, b, e, opts):
     for off, (slot, ms) in enumerate(zip(slots, grid)):
       atoms.insert(slot + off, {"t": "ts", "ms": ms, "hours": cue["hours"] if cue["hours"] != "wide" else "always"})
   maxdepth = opts.get("maxdepth", 3)
+  if rng.random() < opts.get("p_ruby_run", 0.08):
+    # a ruby element over the longest run of plain text (several base / <rt> pairs become likely)
+    best, start = (0, 0), None
+    for k, a in enumerate(atoms + [{"t": "nl"}]):
+      if a["t"] == "text":
+        if start is None:
+          start = k
+      else:
+        if start is not None and k - start > best[1] - best[0]:
+          best = (start, k)
+        start = None
+    if best[1] - best[0] >= 3:
+      node = _make_tag(rng, atoms[best[0]:best[1]], 0, maxdepth, False, 0.7, opts, force="ruby")
+      if node is not None:
+        atoms[best[0]:best[1]] = [node]
   body = _wrap(rng, atoms, 0, maxdepth, False, opts.get("p_tags", 0.7), opts)
   if opts.get("empty_tag", True) and rng.random() < 0.03:
     body.insert(rng.randrange(len(body) + 1), {"t": "tag", "name": rng.choice(["b", "i", "u", "c"]), "classes": [], "annot": None,
